@@ -9,8 +9,13 @@ import (
 	"path/filepath"
 	"strings"
 
+	"io"
+
 	"filippo.io/age/internal/format"
+	"filippo.io/age/internal/stream"
 )
+
+func scryptLess(c *Ctx) *party { return c.freshParty("x25519") }
 
 func init() { checks["C06"] = checkC06 }
 
@@ -84,7 +89,8 @@ func checkC06(c *Ctx) {
 		}
 		in := sc.describe()
 		want := expectedReads(sc.parties)
-		c.Oracle("csprng-reads-one-per-secret", intsEq(sizes, want), "csprng-read-pattern", in, fmt.Sprintf("crypto/rand reads %v, expected %v", sizes, want))
+		// (a correspondence, not an oracle: drawing two values with one read would still be fresh)
+		c.Compare("sizes of the reads from crypto/rand.Reader~one per secret (model segments)", in, fmt.Sprint(sizes), fmt.Sprint(want))
 		pl := parseAll(c.model.Call("plan", sc.rsx(), hx(sc.tape)))[0]
 		mused := -1
 		if pl.list[0].atom == ":ok" {
@@ -196,7 +202,59 @@ func checkC06(c *Ctx) {
 		}
 		clearTape()
 	}
-	// chunk nonces through the reader: swapping / re-flagging chunks must fail (C02 covers it in depth)
+	// a failing CSPRNG (tape cut at every length below what is needed) must make Encrypt fail
+	{
+		pty := x25519Party(c.rng.bytes(32))
+		ps := []*party{pty, c.freshParty("ssh-ed25519"), scryptLess(c)}
+		need := 0
+		for _, r := range expectedReads(ps) {
+			need += r
+		}
+		full := c.rng.bytes(need)
+		for cut := 0; cut < need; cut += 1 + c.rng.intn(3) {
+			sc := &scenario{parties: ps, plain: []byte("x"), tape: full[:cut]}
+			_, err, _, _ := encryptImpl(sc)
+			in := map[string]interface{}{"tape_bytes_available": cut, "needed": need}
+			c.Compare("Encrypt with a CSPRNG that fails~Age.plan_encrypt (short tape)", in, sbool(err == nil), sbool(c.modelEncryptOK(ps, full[:cut]) == ":ok"))
+			c.Oracle("csprng-failure-is-an-error", err != nil, "csprng-error-swallowed", in, "Encrypt succeeded although the CSPRNG failed (no fresh secret could be drawn)")
+			c.note(fmt.Sprint("short-tape:", cut), true)
+			c.count("short-tape")
+		}
+	}
+	// chunk nonces over a LONG payload (the counter carries into its second byte after 256 chunks):
+	// the implementation's ciphertext must be the chunks sealed under counters 0,1,2,... (reference: sealChunk,
+	// the harness's own nonce construction, itself checked against the model in C02)
+	{
+		nChunks := c.vol(258, 600)
+		key := c.rng.bytes(32)
+		plain := make([]byte, (nChunks-1)*chunkSize+5)
+		for i := range plain {
+			plain[i] = byte(i >> 16)
+		}
+		got := streamEncrypt(key, plain)
+		okAll := len(got) == len(plain)+16*nChunks
+		bad := -1
+		for i := 0; i < nChunks && okAll; i++ {
+			lo, hi := i*chunkSize, (i+1)*chunkSize
+			if hi > len(plain) {
+				hi = len(plain)
+			}
+			want := sealChunk(key, uint64(i), i == nChunks-1, plain[lo:hi])
+			off := i * (chunkSize + 16)
+			if !bytes.Equal(got[off:off+len(want)], want) {
+				okAll = false
+				bad = i
+			}
+		}
+		c.Oracle("chunk-i-is-sealed-under-counter-i", okAll, "chunk-nonce-schedule", map[string]int{"chunks": nChunks, "first_bad_chunk": bad},
+			fmt.Sprintf("chunk %d of a %d-chunk payload is not sealed under nonce(counter=%d): a (key, nonce) pair is reused or the counter is wrong", bad, nChunks, bad))
+		// and it decrypts
+		r, _ := stream.NewReader(key, bytes.NewReader(got))
+		out, err := io.ReadAll(r)
+		c.Oracle("long-payload-roundtrip", err == nil && bytes.Equal(out, plain), "long-payload", map[string]int{"chunks": nChunks}, fmt.Sprint("a ", nChunks, "-chunk payload does not decrypt: ", err))
+		c.note("long-payload", true)
+		c.count("long-payload-chunks")
+	}
 	// source scan
 	var hits []string
 	filepath.Walk("/repo", func(p string, info os.FileInfo, err error) error {
